@@ -72,13 +72,16 @@ func (a *Application) executePassthroughRequest(
 	a.logRequestStart(pr, len(endpoints))
 
 	// Execute proxy
-	err = a.proxyService.ProxyRequestToEndpoints(ctx, w, r, endpoints, pr.stats, pr.requestLogger)
+	// the writer notes whether a backend's response has begun: a response without a
+	// Content-Type has started just the same, and an error object must not be appended to it
+	sw := &startedWriter{ResponseWriter: w}
+	err = a.proxyService.ProxyRequestToEndpoints(ctx, sw, r, endpoints, pr.stats, pr.requestLogger)
 
 	a.logRequestResult(pr, err)
 
 	if err != nil {
 		// only write error if response hasn't started
-		if w.Header().Get(constants.HeaderContentType) == "" {
+		if !sw.started && w.Header().Get(constants.HeaderContentType) == "" {
 			a.writeTranslatorError(w, trans, pr, fmt.Errorf("proxy error: %w", err), http.StatusBadGateway)
 		}
 	}
